@@ -326,8 +326,29 @@ class SymSet:
         return SymSet(self.items)
 
 
-def sx_symset(items):
+def sx_symset(items=()):
     return SymSet(items)
+
+
+TRACKED = []
+
+
+def track_sets(module):
+    """module-level sets become SymSets (membership by ==) whose content is restored at the start of every explored path;
+    the name `set` inside the module builds SymSets too"""
+    for name, val in list(vars(module).items()):
+        if type(val) is set:
+            ss = SymSet(val)
+            setattr(module, name, ss)
+            TRACKED.append((ss, list(ss.items)))
+    module.set = sx_symset
+    if _reset_tracked not in E.PATH_START:
+        E.PATH_START.append(_reset_tracked)
+
+
+def _reset_tracked():
+    for ss, init in TRACKED:
+        ss.items = list(init)
 
 
 def sx_mkdict(pairs):
